@@ -156,6 +156,12 @@ def directed_programs():
                                           A.EMPTY_TUPLE, A.REDUCE, A.STOP)),
         ("setitems-on-global-then-call", (g("vp_sink", "K"), A.MARK, A.SBU("k"), A.BININT1(1), A.SETITEMS, A.POP, g("vp_sink", "hit"),
                                           A.EMPTY_TUPLE, A.REDUCE, A.STOP)),
+        # calls whose arguments are long constants (anything that abbreviates what it *prints* must not touch what it *keeps*)
+        ("long-arg-call-popped", (g("vp_sink", "hit"), A.MARK, A.SBU("/srv/models/" + "x" * 50 + "/weights.bin"), A.TUPLE, A.REDUCE, A.POP,
+                                  g("vp_sink", "ident"), A.EMPTY_TUPLE, A.REDUCE, A.STOP)),
+        ("long-arg-call-list", (g("vp_sink", "hit"), A.MARK, A.EMPTY_LIST, A.SBU("y" * 40), A.APPEND, A.SHORT_BINBYTES(b"z" * 64), A.TUPLE,
+                                A.REDUCE, A.STOP)),
+        ("long-arg-obj", (A.MARK, g("vp_sink", "hit"), A.BINUNICODE("w" * 300), A.OBJ, A.STOP)),
         ("nonident-global", (A.SBU("not an identifier"), A.SBU("x y"), A.STACK_GLOBAL, A.STOP)),
         ("nonident-quote", (A.SBU("a'b"), A.SBU("c"), A.STACK_GLOBAL, A.EMPTY_TUPLE, A.REDUCE, A.STOP)),
         ("dotted-attr", (A.SBU("vp_sink"), A.SBU("K.method"), A.STACK_GLOBAL, A.STOP)),
